@@ -358,6 +358,33 @@ theorem reopen_ok {p : PState} (h : Rel p) (t1 t2 w' m' : Nat)
     rw [runOk_append hrun1, runOk_cons hok2, runOk_cons hok3, apply_createManifest, runOk_cons hok4, hd4,
       runOk_cons hok5, hd5, runOk_cons hok6, apply_setCurrent]
     rfl
+  have hR3 : Rel { s := p.s, d := { d2 with manifests := ms3 }, c := p.c } :=
+    rel_other_manifests hR2 ms3 (nodup_update _ _ _ hR2.wf.1)
+      (by show lookup (update d2.manifests m' []) p.c.manifest = _
+          rw [lookup_update, if_neg hmm])
+  have hR4 : Rel { s := p.s, d := { d2 with manifests := ms4 }, c := p.c } :=
+    rel_other_manifests hR2 ms4 (nodup_update _ _ _ (nodup_update _ _ _ hR2.wf.1))
+      (by show lookup (update (update d2.manifests m' []) m' [snap]) p.c.manifest = _
+          rw [lookup_update, if_neg hmm, lookup_update, if_neg hmm])
+  -- the chain up to the switch of CURRENT
+  have cpre : Chain (p.s, p.c) (s3, { manifest := m', wal := w', immWal := none }) p.d
+      (ctOps tabs ++ [Op.createWal w', .createManifest m', .appendManifest m' snap,
+        .appendManifest m' e2, .setCurrent m']) := by
+    obtain ⟨c1, _⟩ := chain_completeTables (p.s, p.c) (s3, { manifest := m', wal := w', immWal := none })
+      tabs (d := p.d) h R.fresh
+    have hd1 : d1 = (ctOps tabs).foldl apply p.d := runOk_eq_foldl hrun1
+    refine Chain.append c1 ?_
+    rw [← hd1]
+    refine Chain.cons _ _ _ (Or.inl hR1) hok2 (Chain.cons _ _ _ (Or.inl hR2) hok3 ?_)
+    rw [apply_createManifest]
+    refine Chain.cons _ _ _ (Or.inl hR3) hok4 ?_
+    rw [hd4]
+    refine Chain.cons _ _ _ (Or.inl hR4) hok5 ?_
+    rw [hd5]
+    refine Chain.single (Or.inl hR5) hok6 (Or.inr ?_)
+    rw [apply_setCurrent]; exact hR6
+  have hd6 : (ctOps tabs ++ [Op.createWal w', .createManifest m', .appendManifest m' snap,
+      .appendManifest m' e2, .setCurrent m']).foldl apply p.d = d6 := (runOk_eq_foldl hpre).symm
   have hw0 : ({ manifest := m', wal := w', immWal := none } : Ctx).w0 = w' := by simp [Ctx.w0]
   rcases h.walImm with ⟨hin, _⟩ | ⟨wi, im, bs, hwi, _, hlt, hlI, _⟩
   · -- no immutable memtable: only the current WAL is removed
@@ -372,7 +399,11 @@ theorem reopen_ok {p : PState} (h : Rel p) (t1 t2 w' m' : Nat)
         some (apply (apply d6 (.removeWal p.c.wal)) (.removeManifest p.c.manifest)) := by
       rw [hops, runOk_append hpre, runOk_cons hok7, runOk_cons hok8]; rfl
     have hd := runOk_eq_foldl hall
-    exact ⟨by rw [← hd]; exact hall, by rw [← hd]; exact hR8⟩
+    refine ⟨by rw [← hd]; exact hall, by rw [← hd]; exact hR8, ?_⟩
+    rw [hops]
+    refine Chain.append cpre ?_
+    rw [hd6]
+    exact Chain.cons _ _ _ (Or.inr hR6) hok7 (Chain.single (Or.inr hR7) hok8 (Or.inr hR8))
   · -- the immutable memtable's WAL first
     have hwi_lt : wi < w' := hw _ (mem_of_lookup _ _ _ hlI)
     obtain ⟨hok7a, hR7a⟩ := rel_removeWal hR6 wi (by rw [hw0]; exact hwi_lt)
@@ -388,6 +419,11 @@ theorem reopen_ok {p : PState} (h : Rel p) (t1 t2 w' m' : Nat)
         some (apply (apply (apply d6 (.removeWal wi)) (.removeWal p.c.wal)) (.removeManifest p.c.manifest)) := by
       rw [hops, runOk_append hpre, runOk_cons hok7a, runOk_cons hok7, runOk_cons hok8]; rfl
     have hd := runOk_eq_foldl hall
-    exact ⟨by rw [← hd]; exact hall, by rw [← hd]; exact hR8⟩
+    refine ⟨by rw [← hd]; exact hall, by rw [← hd]; exact hR8, ?_⟩
+    rw [hops]
+    refine Chain.append cpre ?_
+    rw [hd6]
+    exact Chain.cons _ _ _ (Or.inr hR6) hok7a (Chain.cons _ _ _ (Or.inr hR7a) hok7
+      (Chain.single (Or.inr hR7) hok8 (Or.inr hR8)))
 
 end Rain.Persist.Lemmas
